@@ -20,6 +20,7 @@ import DateutilVerif.Proofs.TzStrTableN
 import DateutilVerif.Proofs.TzStrTableH
 import DateutilVerif.Proofs.TzStrRange
 import DateutilVerif.Proofs.TzStrRender
+import DateutilVerif.Proofs.TzStrBounds
 import DateutilVerif.Model.TzRange
 
 namespace C08
@@ -341,6 +342,46 @@ theorem tzstr_string_posix_partial (sp : Spelling) (posix : Bool) (wf : WellForm
   rw [hz3, hz4] at w4
   exact ⟨z, w, hz1, w1, w2, w3, w4⟩
 
+/-- **tzstr_render: from the STRING to the zone, no residual hypotheses.**  For every well-formed
+    spelling (`WellFormed`: letter abbreviations; offsets as `h`/`hh`, `hhmm` or `hh:mm` with optional
+    sign; rules `Mm.w.d` with arbitrary digit tokens, `Jn` with 1 ≤ n ≤ 366, `n` with n ≤ 365; optional
+    `/time` in its four spellings), `tzstr (render sp) posix` succeeds and its zone is the zone of the
+    POSIX spec `specOf sp posix` with the given abbreviations.  (`tdCheck` follows from the values of
+    ≤ 2-digit tokens, the `_delta` constructions from the whole `ydayidx` table 1..366.) -/
+theorem tzstr_render (sp : Spelling) (posix : Bool) (wf : WellFormed sp) :
+    ∃ z, tzstr (render sp) posix = .ok z ∧ IsZoneOf (specOf sp posix) z ∧
+      z.stdAbbr = some sp.std ∧ z.dstAbbr = some sp.dst := by
+  obtain ⟨z, sd, ed, h1, h2, h3, h4, h5, h6, h7, h8, h9, h10⟩ := TzStr.tzstr_render_full sp posix wf
+  exact ⟨z, h1, ⟨h2, h3, h4, sd, ed, h5, h6, h7, h8⟩, h9, h10⟩
+
+/-- **tzstr_string_posix: string → transitions → lookup = POSIX**, with exactly the residual
+    hypotheses of `tzstr_posix_partial`: rule numbers in POSIX range and `Mm.w.d` times inside the day
+    (the complement is D-C08), positive saving, and the New-Year margin (the complement is D-C04y). -/
+theorem tzstr_string_posix (sp : Spelling) (posix : Bool) (wf : WellFormed sp)
+    (hs : ValidRule (specOf sp posix).startRule) (he : ValidRule (specOf sp posix).endRule)
+    (ht : InRangeTimes (specOf sp posix)) (hsav : (specOf sp posix).stdOff < (specOf sp posix).dstOff)
+    (t Y m : Int) (hY : TZ.yearOf t = Y) (hY1 : 3 ≤ Y) (hY2 : Y ≤ 9997)
+    (m1 : -m ≤ (specOf sp posix).stdOff) (m2 : (specOf sp posix).stdOff ≤ m)
+    (m3 : -m ≤ (specOf sp posix).dstOff) (m4 : (specOf sp posix).dstOff ≤ m)
+    (m5 : (specOf sp posix).dstOff - (specOf sp posix).stdOff ≤ m)
+    (i0 : TZ.InsideM (specOf sp posix) (Y - 1) m) (i1 : TZ.InsideM (specOf sp posix) Y m)
+    (i2 : TZ.InsideM (specOf sp posix) (Y + 1) m)
+    (o0 : startUtc (specOf sp posix) (Y - 1) < endUtc (specOf sp posix) (Y - 1) ↔
+          startUtc (specOf sp posix) Y < endUtc (specOf sp posix) Y)
+    (o2 : startUtc (specOf sp posix) (Y + 1) < endUtc (specOf sp posix) (Y + 1) ↔
+          startUtc (specOf sp posix) Y < endUtc (specOf sp posix) Y) :
+    ∃ z w, tzstr (render sp) posix = .ok z ∧ (TZ.ofTzStr z).fromutc t = .ok w ∧
+      (TZ.ofTzStr z).utcoffset w = .ok (Posix.offsetAt (specOf sp posix) (t + TZ.epochShift)) ∧
+      (TZ.ofTzStr z).dst w = .ok (if Posix.isDstAt (specOf sp posix) (t + TZ.epochShift)
+        then (specOf sp posix).dstOff - (specOf sp posix).stdOff else 0) ∧
+      (TZ.ofTzStr z).tzname w = .ok (if Posix.isDstAt (specOf sp posix) (t + TZ.epochShift)
+        then TZ.abbrBytes (some sp.dst) else TZ.abbrBytes (some sp.std)) := by
+  obtain ⟨z, hz1, hz2, hz3, hz4⟩ := tzstr_render sp posix wf
+  obtain ⟨w, w1, w2, w3, w4⟩ := tzstr_posix_partial (specOf sp posix) z hz2 hs he ht hsav t Y m hY hY1 hY2
+    m1 m2 m3 m4 m5 i0 i1 i2 o0 o2
+  rw [hz3, hz4] at w4
+  exact ⟨z, w, hz1, w1, w2, w3, w4⟩
+
 /-- **C08 (no daylight part).** A string without a daylight abbreviation is a fixed-offset zone:
     no DST, no transitions in any year — for every string and either `posix_offset` setting. -/
 theorem no_dst_part_is_fixed (s : String) (posix : Bool) (z : Zone) (h : tzstr s posix = .ok z)
@@ -464,5 +505,29 @@ example : (specOf spUS false).stdOff = -18000 ∧ (specOf spUS false).dstOff = -
     (specOf spCET false).stdOff = 3600 ∧ (specOf spNST false).stdOff = -12600 ∧
     (specOf spNST false).startTime = 60 := by decide
 example : parse (render spNST) = .ok (some spNST.res) := by decide
+
+/-- the three named spellings are well-formed, so `tzstr_render` applies to them -/
+theorem nOk (t : String) (v : Int) (h : pyInt t = some v) : (n t v).Ok := h
+theorem wf_spUS : WellFormed spUS :=
+  ⟨⟨by decide, by decide⟩, ⟨by decide, by decide⟩, ⟨nOk _ _ (by decide), by decide⟩, trivial,
+   ⟨nOk _ _ (by decide), nOk _ _ (by decide), nOk _ _ (by decide)⟩, trivial,
+   ⟨nOk _ _ (by decide), nOk _ _ (by decide), nOk _ _ (by decide)⟩, trivial⟩
+theorem wf_spCET : WellFormed spCET :=
+  ⟨⟨by decide, by decide⟩, ⟨by decide, by decide⟩, ⟨nOk _ _ (by decide), by decide⟩, trivial,
+   ⟨nOk _ _ (by decide), nOk _ _ (by decide), nOk _ _ (by decide)⟩, trivial,
+   ⟨nOk _ _ (by decide), nOk _ _ (by decide), nOk _ _ (by decide)⟩, ⟨nOk _ _ (by decide), by decide⟩⟩
+theorem wf_spNST : WellFormed spNST :=
+  ⟨⟨by decide, by decide⟩, ⟨by decide, by decide⟩,
+   ⟨nOk _ _ (by decide), nOk _ _ (by decide), by decide, by decide, by decide⟩, trivial,
+   ⟨nOk _ _ (by decide), nOk _ _ (by decide), nOk _ _ (by decide)⟩,
+   ⟨nOk _ _ (by decide), nOk _ _ (by decide), by decide⟩,
+   ⟨nOk _ _ (by decide), nOk _ _ (by decide), nOk _ _ (by decide)⟩,
+   ⟨nOk _ _ (by decide), nOk _ _ (by decide), by decide⟩⟩
+example : ∃ z, tzstr "EST5EDT,M3.2.0,M11.1.0" false = .ok z ∧ IsZoneOf (specOf spUS false) z ∧
+    z.stdAbbr = some "EST" ∧ z.dstAbbr = some "EDT" := tzstr_render spUS false wf_spUS
+example : ∃ z, tzstr "CET-1CEST,M3.5.0,M10.5.0/3" false = .ok z ∧ IsZoneOf (specOf spCET false) z ∧
+    z.stdAbbr = some "CET" ∧ z.dstAbbr = some "CEST" := tzstr_render spCET false wf_spCET
+example : ∃ z, tzstr "NST3:30NDT,M3.2.0/0:01,M11.1.0/0:01" true = .ok z ∧ IsZoneOf (specOf spNST true) z ∧
+    z.stdAbbr = some "NST" ∧ z.dstAbbr = some "NDT" := tzstr_render spNST true wf_spNST
 
 end C08
